@@ -157,6 +157,11 @@ def analyse(P, R, key, cap_attr, thr_attr, mstep_names, rule="LOOP"):
                 thr_cmp = (c, r, flip.get(type(op), op))
             elif isinstance(l, ast.Name) and l.id == step and pol:
                 step_guard = (c, op, const_value(r))
+            elif isinstance(l, ast.Name) and l.id == step and pol is False:
+                # `if step <= 1: continue` before the test: the test runs when step > 1 (the counter is an integer)
+                neg = {ast.LtE: ast.Gt(), ast.Lt: ast.GtE(), ast.Gt: ast.LtE(), ast.GtE: ast.Lt()}
+                if type(op) in neg:
+                    step_guard = (c, neg[type(op)], const_value(r))
     if thr_cmp is None:
         R.violation(rule + ".L2", key, "break guarded by value <= threshold", f"the early exit is not guarded by a comparison with self.{thr_attr}", brk.lineno)
         return None
@@ -326,6 +331,11 @@ def check_criterion_source(P, R, F, key, mstep_names, rule="LOOP.L4-mstep"):
             e = v
             if isinstance(e, ast.Subscript) and const_value(e.slice) == 0 and isinstance(e.value, ast.Call) and (P.dotted(e.value.func, f) or "").endswith("compute") and e.value.args:
                 e = e.value.args[0]
+            elif isinstance(e, ast.Call) and isinstance(e.func, ast.Attribute) and e.func.attr == "compute" and not e.args:
+                e = e.func.value  # <Delayed>.compute()
+            # the Delayed may have been bound to a name first
+            from ..dataflow import resolve_name as _rn
+            e = _rn(du, e, d.stmt)[0]
             if isinstance(e, ast.Call):
                 kind, fexpr, args, kws = P.peel_call(e, f)
                 return src(fexpr).split(".")[-1] in mstep_names
